@@ -373,6 +373,10 @@ def run_case(c, d):
                 c.exception('Window.response', exc, f2)
 
 
+DEFAULTS_FOR_MIX = {'beta': 8.6, 'alpha': 2.5, 'r': 0.5, 'attenuation': 50, 'mode': 'symmetric', 'nbar': 4, 'sll': -30,
+                    'precision': None}
+
+
 def factory_case(c, W):
     c.set_nontrivial(True)
     names = sorted(W.window_names)
@@ -391,6 +395,28 @@ def factory_case(c, W):
             else:
                 c.fail('factory:rejects-undocumented-parameter', {'name': name, 'param': bad},
                        {'name': name, 'param': bad})
+    # an undocumented parameter is rejected also when it comes together with a documented one
+    for name in names:
+        allowed = PARAMS.get(name, [])
+        if not allowed:
+            continue
+        good = allowed[0]
+        try:
+            gv = W.create_window(16, name, **{good: DEFAULTS_FOR_MIX.get(good, 1)})
+        except Exception:
+            continue
+        for bad in ('foo', 'beta', 'alpha', 'precision2'):
+            if bad in allowed:
+                continue
+            try:
+                W.create_window(16, name, **{good: DEFAULTS_FOR_MIX.get(good, 1), bad: 1})
+            except ValueError:
+                c.ok('factory:rejects-undocumented-parameter-next-to-a-documented-one')
+            except Exception as exc:
+                c.exception('create_window', exc, {'name': name, 'param': bad, 'with': good})
+            else:
+                c.fail('factory:rejects-undocumented-parameter-next-to-a-documented-one',
+                       {'name': name, 'param': bad, 'with': good}, {'name': name, 'param': bad})
     try:
         w = W.create_window(16, None)
         c.compare('factory:default-name-is-rectangle', np.asarray(w), np.ones(16), 0.0, {'fn': 'create_window'}, scale=1.0)
